@@ -74,7 +74,29 @@ func (sf *scalarField) SetGoValue(value interface{}) error {
 	if err != nil {
 		return fmt.Errorf("setting field %s: %w", sf.FullTypeName(), err)
 	}
+	if err := checkValueKind(sf.schema, reflectValue); err != nil {
+		return fmt.Errorf("setting field %s: %w", sf.FullTypeName(), err)
+	}
 	return sf.setValue(reflectValue)
+}
+
+// checkValueKind reports a converted value that the proto field cannot hold: a
+// scalar backed by a well-known message type takes a message, every other
+// scalar does not. protoreflect panics on such an assignment
+// (google.protobuf.Duration reflects as a string scalar, but the conversion
+// yields a Go string, not a Duration message).
+func checkValueKind(schema *j5schema.ScalarSchema, value protoreflect.Value) error {
+	if !value.IsValid() {
+		return nil
+	}
+	_, isMessage := value.Interface().(protoreflect.Message)
+	if wantMessage := schema.WellKnownTypeName != ""; wantMessage != isMessage {
+		if wantMessage {
+			return fmt.Errorf("values of type %s are not supported", schema.WellKnownTypeName)
+		}
+		return fmt.Errorf("a message value cannot be stored in a %s field", schema.TypeName())
+	}
+	return nil
 }
 
 func (sf *scalarField) ToGoValue() (interface{}, error) {
@@ -108,6 +130,9 @@ func (array *arrayOfScalarField) AppendGoValue(value interface{}) (int, error) {
 	if !reflectValue.IsValid() {
 		return -1, fmt.Errorf("cannot append nil value")
 	}
+	if err := checkValueKind(array.itemSchema, reflectValue); err != nil {
+		return -1, err
+	}
 	return array.appendProtoValue(reflectValue), nil
 }
 
@@ -137,6 +162,9 @@ func (mapField *mapOfScalarField) SetGoValue(key string, value interface{}) erro
 	}
 	if !reflVal.IsValid() {
 		return fmt.Errorf("cannot set nil value for key %q", key)
+	}
+	if err := checkValueKind(mapField.itemSchema, reflVal); err != nil {
+		return fmt.Errorf("converting value to proto: %w", err)
 	}
 	mapField.setKey(key, reflVal)
 	return nil
